@@ -873,7 +873,7 @@ theorem multi_sx {g : Fsg} {li : LexIn} {tm : Nat → Nat} {s lid : Nat} {lcl : 
 
 /-- **`psubtree_add_trans` keeps the exact facts** -/
 theorem addTrans_sx {g : Fsg} {li : LexIn} {tm : Nat → Nat} {s : Nat} {lcOf rcOf : Nat → List Nat} {a0 : Array PNode} (hlc : lcOf s ≠ [])
-    (w0 : Bld) (lid : Nat) (hlid : lid ∈ stateArcs g s) (h : WInv g s a0 w0) (hr : WR w0) (hx : WX li tm s (lcOf s) w0) (htm : SsidTmat li tm)
+    (w0 : Bld) (lid : Nat) (hlid : lid ∈ stateArcs g s) (h : WInv g s a0 w0) (hr : WR w0) (hx : WX li tm s (lcOf s) w0) (htm : SsidTmat li g tm)
     (hn : 1 ≤ (li.word (g.link lid).wid.toNat).pron.length) (sx : SX li g lcOf rcOf s a0 w0) :
     SX li g lcOf rcOf s a0 (addTrans li g s (lcOf s) (rcOf lid) w0 lid) := by
   have hl := mem_stateArcs hlid
@@ -980,7 +980,7 @@ theorem addTrans_sx {g : Fsg} {li : LexIn} {tm : Nat → Nat} {s : Nat} {lcOf rc
         | cons y ys => exact List.mem_cons_self ..
       have ctx : PhCtx g li tm s lid (li.word (g.link lid).wid.toNat) R.lcl
           (GEntry.mk ((li.word (g.link lid).wid.toNat).pron.headD 0) ((li.word (g.link lid).wid.toNat).pron.getD 1 0) R.lcl :: w0.glists) R.nodes :=
-        ⟨hl, rfl, hI.lcl, hR.nodup, ⟨_, List.mem_cons_self .., rfl⟩, htm, hn2⟩
+        ⟨hl, rfl, hI.lcl, hR.nodup, ⟨_, List.mem_cons_self .., rfl⟩, fun p h1 h2 => htm lid hl.1 hl.2.2 p h1 h2, hn2⟩
       have sx1 : SX li g lcOf rcOf s a0 { nodes := R.nodes, root := R.root, glists := w0.glists } :=
         sx.quietLoop (st := R) h.ext.1 hx.gx hqx hQ hG hLS (fun x _ _ hK' _ hleaf => by
           rw [(core_eq hK'.1).2.1] at hleaf; cases hleaf)
@@ -1002,7 +1002,7 @@ theorem addTrans_sx {g : Fsg} {li : LexIn} {tm : Nat → Nat} {s : Nat} {lcOf rc
         · exact h2
       simp only [hemp, Bool.not_false, if_true]
       have ctx : PhCtx g li tm s lid (li.word (g.link lid).wid.toNat) e.list w0.glists w0.nodes :=
-        ⟨hl, rfl, h.glists e he, hr.nodup e he, ⟨e, he, rfl⟩, htm, hn2⟩
+        ⟨hl, rfl, h.glists e he, hr.nodup e he, ⟨e, he, rfl⟩, fun p h1 h2 => htm lid hl.1 hl.2.2 p h1 h2, hn2⟩
       exact multi_sx ctx h.inv hr.ranked hx.gx hx.kind (headD_mem hne) ⟨e, he, rfl, hcirc.1, hcirc.2⟩ hlid hv h.ext.1 sx
     · exact newSet
 
@@ -1174,7 +1174,7 @@ end Paths
 
 /-- **one state**: every root-to-leaf path under the new `root[s]` is the path of a word arc leaving `s` -/
 theorem buildState_sx {g : Fsg} {li : LexIn} {tm : Nat → Nat} {lcs rcs : Array Nat} {nodes : Array PNode} {s : Nat}
-    (hlc : ctxList li (lcs.getD s 0) ≠ []) (inv : GInv g nodes) (hr : Ranked nodes) (htm : SsidTmat li tm)
+    (hlc : ctxList li (lcs.getD s 0) ≠ []) (inv : GInv g nodes) (hr : Ranked nodes) (htm : SsidTmat li g tm)
     (hpron : ∀ lid ∈ stateArcs g s, 1 ≤ (li.word (g.link lid).wid.toNat).pron.length)
     (hown : ∀ x, x < nodes.size → (ndOf nodes x).owner ≠ s) :
     PathsSound li g (fun s => ctxList li (lcs.getD s 0)) (fun lid => ctxList li (rcs.getD (g.link lid).dst 0))
@@ -1234,7 +1234,7 @@ theorem PathsSound.later {li : LexIn} {g : Fsg} {lcOf rcOf : Nat → List Nat} {
     rw [f2, f4, f5, f6]; exact h2 j hj1 hj2
 
 /-- all states -/
-theorem buildFold_sx (li : LexIn) (g : Fsg) (tm : Nat → Nat) (hsil : li.sil < li.nCi) (htm : SsidTmat li tm)
+theorem buildFold_sx (li : LexIn) (g : Fsg) (tm : Nat → Nat) (hsil : li.sil < li.nCi) (htm : SsidTmat li g tm)
     (hpron : ∀ s, s < li.nState → ∀ lid ∈ stateArcs g s, 1 ≤ (li.word (g.link lid).wid.toNat).pron.length) :
     ∀ n, n ≤ li.nState → ∀ s, s < n →
       PathsSound li g (fun s => ctxList li ((ctxFlags li g).1.getD s 0)) (fun lid => ctxList li ((ctxFlags li g).2.getD (g.link lid).dst 0))
@@ -1297,7 +1297,7 @@ word has `k + 1` phones such that — `k = 0`: `q 0` is the pnode of the single-
 word-initial pnode of the word (every bit `c` of its context set is a left context of `s` with `ssid = ldiph p₀ p₁ c`), `q j` has
 the ssid, transition matrix and entry penalty of the word's position `j`, and `q k` is a word-final pnode carrying the arc (every
 bit `c` of its context set is a right context of the arc's target state with `ssid = rssid p_k p_{k−1} c`). -/
-theorem build_paths_sound (li : LexIn) (g : Fsg) (tm : Nat → Nat) (hsil : li.sil < li.nCi) (htm : SsidTmat li tm)
+theorem build_paths_sound (li : LexIn) (g : Fsg) (tm : Nat → Nat) (hsil : li.sil < li.nCi) (htm : SsidTmat li g tm)
     (hpron : ∀ s, s < li.nState → ∀ lid ∈ stateArcs g s, 1 ≤ (li.word (g.link lid).wid.toNat).pron.length)
     {s : Nat} (hs : s < li.nState) (k : Nat) (q : Nat → Nat) (h0 : q 0 ∈ (buildLexTree li g).roots s)
     (hch : ∀ j, j < k → q (j + 1) ∈ (buildLexTree li g).children (q j)) (hleaf : ((buildLexTree li g).node (q k)).leaf = true) :
@@ -1322,7 +1322,7 @@ open SSVerif.FlatNet (Model Arc Word Inst instsOfArc wordArcs lcSet rcSet shiftS
 open SSVerif.Generated.Search (wposSingle wposBegin wposInternal wposEnd)
 
 /-- **every root-to-leaf path of the lextree the code builds is an instance chain of one word arc of the flat network** -/
-theorem bridge_paths {M : Model} {li : LexIn} {tm : Nat → Nat} (h : Agree M li) (hl : LookAgree M li) (htm : SsidTmat li tm)
+theorem bridge_paths {M : Model} {li : LexIn} {tm : Nat → Nat} (h : Agree M li) (hl : LookAgree M li) (htm : SsidTmat li (fsgOf M) tm)
     (hall : ∀ i a w, (i, a, w) ∈ wordArcs M → ∃ insts, instsOfArc M i a w = some insts)
     {s : Nat} (hs : s < li.nState) (k : Nat) (q : Nat → Nat) (h0 : q 0 ∈ (buildLexTree li (fsgOf M)).roots s)
     (hch : ∀ j, j < k → q (j + 1) ∈ (buildLexTree li (fsgOf M)).children (q j))
